@@ -8,6 +8,8 @@ import sys
 import time
 import typing as t
 
+from vf.instruments.clock import CLOCK, EPOCH_FILETIME, Clock, filetime_to_ns  # noqa: F401  (installed before the code under test is imported)
+
 import dpapi_ng
 
 DPAPI_ROOT = os.path.dirname(os.path.abspath(dpapi_ng.__file__))
@@ -142,6 +144,7 @@ class KdfMeter:
     def __init__(self) -> None:
         self.n = 0
         self.concat = 0
+        self.unmetered_backend_calls = 0
         self.limit = 1 << 62
         self.log: t.Optional[list] = None
         self._installed = False
@@ -172,6 +175,34 @@ class KdfMeter:
             return orig_c(self_, key_material)
 
         concatkdf.ConcatKDFHash.derive = derive_c
+
+        # second layer: the package's own kdf() helper, in every namespace that imported it.  When it is implemented on
+        # something else than KBKDFHMAC (hmac module, another backend) the class-level wrap above sees nothing; the call is
+        # then counted (and budgeted, and logged) here so that the termination bound keeps its teeth.
+        import dpapi_ng._crypto as _c
+
+        fn = getattr(_c, "kdf", None)
+        if callable(fn):
+
+            def kdf(algorithm, secret, *a, **k):
+                before = meter.n
+                out = fn(algorithm, secret, *a, **k)
+                if meter.n == before:
+                    meter.n += 1
+                    meter.unmetered_backend_calls += 1
+                    if meter.log is not None:
+                        meter.log.append((bytes(secret), out))
+                    if meter.n > meter.limit:
+                        meter.limit = 1 << 62
+                        raise KdfBudgetExceeded("more than the budgeted KDF invocations")
+                return out
+
+            kdf.__wrapped__ = fn
+            for name, mod in list(sys.modules.items()):
+                if name.startswith("dpapi_ng") and mod is not None:
+                    for attr, val in list(vars(mod).items()):
+                        if val is fn:
+                            setattr(mod, attr, kdf)
         self._installed = True
 
     @contextlib.contextmanager
@@ -191,57 +222,6 @@ KDFS = KdfMeter()
 
 
 # ---------------------------------------------------------------------------
-class Clock:
-    """Replaces time.time_ns / time.time with a scripted value and counts reads."""
-
-    def __init__(self) -> None:
-        self.reads = 0
-        self.value_ns: t.Optional[int] = None
-        self._orig_ns = time.time_ns
-        self._orig = time.time
-        self._installed = False
-
-    def install(self) -> None:
-        if self._installed:
-            return
-        clock = self
-
-        def time_ns():
-            if clock.value_ns is None:
-                return clock._orig_ns()
-            clock.reads += 1
-            return clock.value_ns
-
-        def time_():
-            if clock.value_ns is None:
-                return clock._orig()
-            clock.reads += 1
-            return clock.value_ns / 1e9
-
-        time.time_ns = time_ns
-        time.time = time_
-        self._installed = True
-
-    @contextlib.contextmanager
-    def at_ns(self, ns: int):
-        self.install()
-        prev = self.value_ns
-        self.value_ns = ns
-        try:
-            yield self
-        finally:
-            self.value_ns = prev
-
-
-CLOCK = Clock()
-EPOCH_FILETIME = 116444736000000000
-
-
-def filetime_to_ns(ft: int, sub_ns: int = 0) -> int:
-    """100ns ticks since 1601 -> ns since 1970 (+ sub-tick phase 0..99)."""
-    return (ft - EPOCH_FILETIME) * 100 + sub_ns
-
-
 # ---------------------------------------------------------------------------
 class Entropy:
     """Wraps os.urandom: logs every draw; optionally serves forced values (by size) first."""
